@@ -213,7 +213,7 @@ def search(ctx, budget):
             kind = "path"
         else:
             order = 2 + i % 3
-            fam = ["int", "grid", "arch", "elevated", "dyadic", "float", "collinear", "coincident", "arch", "double-root"][(i // 3) % 10]
+            fam = ["int", "grid", "arch", "elevated", "dyadic", "float", "collinear", "coincident", "arch", "double-root", "evenspaced", "tiny", "retracted"][(i // 3) % 13]
             if fam == "double-root" and rng.random() < 0.5:
                 # cusp cubic: x' and y' share a root (the same cut parameter twice), with a further extreme later on the segment
                 r1 = rng.choice([0.25, 0.5, 0.375])
